@@ -85,6 +85,16 @@ fn main() {
                         play(&mut g, &mut rng, pol, 16, 0.25);
                     }
                 }
+                "unclean" => {
+                    // parsed positions with hanging trap pieces: a handful of actions from each
+                    if let Some(c) = unclean_position(&mut rng) {
+                        let gold = rng.chance(0.5);
+                        let mn = 2 + rng.below(30);
+                        if g.reset_parsed(&c, gold, mn, "unclean") {
+                            play(&mut g, &mut rng, Policy::Random, 5, 0.5);
+                        }
+                    }
+                }
                 "setupall" => {
                     if round > 1 {
                         break;
